@@ -119,6 +119,13 @@ class Tr:
                             self.env[k] = f"(if {c} then {v} else {old})"
                 continue
             if isinstance(st, ast.Return):
+                if outputs and isinstance(outputs, tuple):
+                    # ("callargs", i, j, ...): the return value is a constructor call; the requested outputs are
+                    # its positional arguments i, j, ... (whatever the locals holding them are called)
+                    if not (isinstance(st.value, ast.Call) and not st.value.keywords
+                            and len(st.value.args) > max(outputs[1:])):
+                        raise Untranslatable("return is not the expected constructor call")
+                    return [self.expr(st.value.args[k]) for k in outputs[1:]]
                 if outputs:
                     break
                 return self.expr(st.value)
@@ -151,10 +158,10 @@ KERNELS = [
      ["start", "stop", "offset"],
      {"reg_range.start": "start", "reg_range.stop": "stop", "offset": "offset"}, None),
     ("amaranth_soc/memory.py", ["MemoryMap", "_translate"],
-     ["gen_translate_size", "gen_translate_start", "gen_translate_width"],
+     ["gen_translate_start", "gen_translate_end", "gen_translate_width"],
      ["rstart", "rend", "rwidth", "wstart", "wstep"],
      {"resource_info.start": "rstart", "resource_info.end": "rend", "resource_info.width": "rwidth",
-      "window_range.start": "wstart", "window_range.step": "wstep"}, ["size", "start", "width"]),
+      "window_range.start": "wstart", "window_range.step": "wstep"}, ("callargs", 2, 3, 4)),
 ]
 
 
